@@ -16,6 +16,7 @@ Definition is_pm (o : binop) : bool := match o with Add | Sub => true | _ => fal
 (* _operator.__mul__ on the symbols + and - *)
 Definition xop (o1 o2 : binop) : binop :=
   match o1, o2 with Add, Add | Sub, Sub => Add | _, _ => Sub end.
+Definition is_logic (o : binop) : bool := match o with And | Or | Xor => true | _ => false end.
 Definition pmc (o : binop) (a b : Z) : Z := match o with Add => a + b | _ => a - b end.
 Definition is_arith (o : binop) : bool := match o with Add | Sub | Mul | Mul2 | Div | Mod => true | _ => false end.
 
